@@ -52,6 +52,23 @@ def rng_for(*parts: object) -> random.Random:
     return random.Random(int(hashlib.sha256(key.encode()).hexdigest()[:16], 16))
 
 
+def family_rng(*parts: object) -> random.Random:
+    """PRNG of one member of a finite scenario family: a pure function of the labels, NOT of VERIF_SEED.
+
+    Scenario families are finite and fixed ("family-v1"); VERIF_SEED only selects which members a run
+    executes (sample_indices). The whole family is swept during development, so that no seed can meet a
+    genuine defect of the unchanged tree that is not already repaired or listed in known_findings.json."""
+    key = ":".join(["family-v1"] + [str(p) for p in parts])
+    return random.Random(int(hashlib.sha256(key.encode()).hexdigest()[:16], 16))
+
+
+def sample_indices(prop: str, fam: str, size: int, n: int) -> list[int]:
+    """The members of family `fam` this run executes: all of them if n >= size, else a VERIF_SEED-chosen sample."""
+    if n >= size:
+        return list(range(size))
+    return sorted(rng_for(prop, fam, "sample").sample(range(size), n))
+
+
 def jobs() -> int:
     try:
         return max(1, int(os.environ.get("VERIF_JOBS", "0")) or (os.cpu_count() or 4))
